@@ -257,6 +257,21 @@ def run(ctx) -> None:
                        "containment test): the members it skips are still written by extractall() - a FIFO or a member of unknown type named "
                        "'../escaped.txt' is created outside the working directory and staging reports success",
                        construct="member loop: every member reaches the containment test")
+        # the name that is vetted is the name extractall() will use: the member's name as stored.  A vetting that first strips a leading
+        # '/' ("tar extracts /a/b as a/b") accepts '<dest>/abs/x' while tarfile (fully_trusted default) writes '/abs/x' (seed C18-15)
+        lvar = lp.target.id if isinstance(lp.target, ast.Name) else None
+        rewrites = [x for x in ast.walk(lp) if isinstance(x, ast.Call) and (
+            (isinstance(x.func, ast.Attribute) and x.func.attr in ("lstrip", "strip", "replace", "removeprefix", "split", "partition", "lower", "upper")
+             and isinstance(x.func.value, ast.Attribute) and x.func.value.attr in ("name", "path") and isinstance(x.func.value.value, ast.Name)
+             and x.func.value.value.id == lvar)
+            or ((call_name(x) or "").endswith(("path.basename", "path.relpath")) and x.args and isinstance(x.args[0], ast.Attribute)
+                and x.args[0].attr in ("name", "path") and isinstance(x.args[0].value, ast.Name) and x.args[0].value.id == lvar))]
+        if name_tests:
+            ctx.ob("C18.R1-archive-members", rewrites[0] if rewrites else lp, not rewrites,
+                   "the member names are vetted as they are stored in the archive" if not rewrites else
+                   "the member loop vets a REWRITTEN name (%s) while extractall() writes the member under the name stored in the archive: a member "
+                   "named '/abs/x' is vetted as '<dest>/abs/x', accepted, and written at /abs/x outside the working directory" % short(rewrites[0], 50),
+                   construct="member loop: the stored name is what is vetted")
         for c in name_tests:
             ok, why = containment_quality(sr, c, lambda n: isinstance(n, ast.Attribute) and n.attr in ("name", "path") and isinstance(n.value, ast.Name))
             ctx.ob("C18.R1-archive-members", c.compare, ok,
